@@ -21,6 +21,12 @@ fn main() {
     "c09" => vh::engines::c09::run(),
     "c10" => vh::engines::c10::run(),
     "c11" => vh::engines::c11::run(),
+    "c12dump" => {
+      // debug helper: prints the generated models of the C12 corpus
+      for (k, x) in vh::engines::c04::sample_models().into_iter().chain(vh::engines::c11::sample_models()).enumerate() {
+        println!("=== generated model {}\n{}", k, x);
+      }
+    }
     "c12" => vh::engines::c12::run(),
     "c12worker" => vh::engines::c12::worker(&args[2..]),
     "c13" => vh::engines::c13::run(),
